@@ -35,6 +35,16 @@ UnitsFrom(d, c) ==
 
 Units(d) == UnitsFrom(d, 1)
 
+(* total length of the start codes that delimit the units (same scan) *)
+RECURSIVE CodesFrom(_, _)
+CodesFrom(d, c) ==
+    LET p == NextSC(d, c) IN
+    IF p = 0 THEN 0
+    ELSE LET s == p + CodeLen(d, p)
+             q == NextSC(d, s)
+         IN CodeLen(d, p) + (IF q = 0 THEN 0 ELSE CodesFrom(d, q))
+StartCodeBytes(d) == CodesFrom(d, 1)
+
 (* NAL units proper: the non-empty runs.                                      *)
 Nals(d) == SelectSeq(Units(d), LAMBDA u : u # << >>)
 
